@@ -1021,11 +1021,13 @@ func (c *Ctx) execFor(env *Env, x *ast.ForStmt, st *State, label string) []*Stat
 	fr.loops = append(fr.loops, lc)
 	body := st.clone()
 	body.assume(cond)
+	callBase := len(body.calls)
 	c.addCover(body, fmt.Sprintf("loop%d/body", n), x.Pos())
 	ends := c.execBlock(env, x.Body.List, []*State{body})
 	ends = append(ends, lc.continues...)
 	fr.loops = fr.loops[:len(fr.loops)-1]
 	for pi, e := range ends {
+		c.checkSteps(env, spec, n, pos, nil, e, pi, callBase, x.Pos())
 		if x.Post != nil {
 			outs := c.execStmt(env, x.Post, e)
 			if len(outs) == 0 {
@@ -1048,6 +1050,29 @@ func (c *Ctx) execFor(env *Env, x *ast.ForStmt, st *State, label string) []*Stat
 	}
 	out = append(out, lc.breaks...)
 	return c.loopExits(env, spec, n, pos, out, x.Pos())
+}
+
+// checkSteps: "step" clauses of a loop are proved at the end of every iteration (the fall-through of
+// the body and every continue), in the state and with the loop variables of THAT iteration;
+// called(F) inside a step clause speaks about the calls made since the loop head, i.e. in this
+// iteration ("every owned operation of the log is re-applied": step owns(e) ==> called(Put) || called(Delete)).
+func (c *Ctx) checkSteps(env *Env, spec *LoopSpec, n int, pos token.Pos, extra map[string]Val, s *State, pi int, callBase int, at token.Pos) {
+	if spec == nil {
+		return
+	}
+	for k, cl := range spec.Steps {
+		ie := c.invEnv(env, pos, extra)
+		ie.callBase = callBase
+		g, fits := c.evalLoopClause(ie, cl, s)
+		text := "step " + cl.Text
+		if !fits {
+			g = "false"
+			text += " (cannot be evaluated at the end of this iteration: " + c.staleClauses[len(c.staleClauses)-1] + ")"
+		}
+		c.curGroup = cl.Group
+		c.addObl(s, fmt.Sprintf("loop%d/step#%d@p%d", n, k, pi), "inv", g, c.e.pos(at), text, nil)
+		c.curGroup = ""
+	}
 }
 
 // loopExits: "exit" clauses of a loop are proved in every state that leaves the loop
@@ -1204,6 +1229,7 @@ func (c *Ctx) execRange(env *Env, x *ast.RangeStmt, st *State, label string) []*
 		c.loopIdx, c.loopColl = map[int]Val{}, map[int]Val{}
 	}
 	c.loopIdx[n], c.loopColl[n] = i, coll
+	callBase := len(body.calls)
 	ends := c.execBlock(env, x.Body.List, []*State{body})
 	delete(c.loopIdx, n)
 	delete(c.loopColl, n)
@@ -1211,6 +1237,7 @@ func (c *Ctx) execRange(env *Env, x *ast.RangeStmt, st *State, label string) []*
 	fr.loops = fr.loops[:len(fr.loops)-1]
 	next := Val{T: app("+", i.T, "1"), Ty: tInt}
 	for pi, e := range ends {
+		c.checkSteps(env, spec, n, pos, mkExtra(i), e, pi, callBase, x.Pos())
 		checkInvs(e, next, fmt.Sprintf("keep@p%d", pi))
 		c.genKeep(e, n, pi, x.Pos())
 	}
